@@ -80,7 +80,7 @@ fn history(n: usize) {
 fn c06_minter_history_2() {
     history(2)
 }
-// HARNESS props=C06,C11,C12 tier=thorough profile=tok_roles shape="constructor, then ANY 4 transactions over {add_minter, remove_minter, transfer_ownership}, then is_minter / token_id / mint_from"
+// HARNESS props=C06,C11,C12 tier=thorough profile=tok_roles4 shape="constructor, then ANY 4 transactions over {add_minter, remove_minter, transfer_ownership}, then is_minter / token_id / mint_from"
 #[kani::proof]
 fn c06_minter_history_4() {
     history(4)
